@@ -1407,3 +1407,340 @@ func ruleOneSendPerRoundTrip(c *Ctx, p *Prog, rule string) {
 		c.Unk(rule, "transport:one-send-per-call", p, 0, "no RoundTrip method found in agent/utils (the VM identity transport was renamed or removed)")
 	}
 }
+
+// ruleExternalIndexInBounds: a slice or array indexed with a value that comes from outside the
+// function (a parameter, a field, a parsed number) — not a loop counter — has a non-negative
+// lower bound at the index expression. A table lookup keyed by a client-chosen protocol version
+// that is only clamped from above panics with index out of range [-1] in a request goroutine
+// that nothing recovers: one malformed header terminates the agent.
+func ruleExternalIndexInBounds(c *Ctx, p *Prog, rule string, pkgs ...string) {
+	n := 0
+	bad := ""
+	for _, pk := range pkgs {
+		for _, fn := range p.AllFuncsIn(pk) {
+			EachInstrRaw(fn, func(i ssa.Instruction) {
+				var x, idx ssa.Value
+				switch v := i.(type) {
+				case *ssa.IndexAddr:
+					x, idx = v.X, v.Index
+				case *ssa.Index:
+					x, idx = v.X, v.Index
+				default:
+					return
+				}
+				switch derefT(x.Type()).Underlying().(type) {
+				case *types.Slice, *types.Array:
+				default:
+					return
+				}
+				if _, isC := idx.(*ssa.Const); isC {
+					return
+				}
+				if b, ok := idx.Type().Underlying().(*types.Basic); ok && b.Info()&types.IsUnsigned != 0 {
+					return
+				}
+				// loop counters (a phi that is incremented around a cycle) are bounded by their loop
+				external, counter := false, false
+				SliceBack(idx, func(v ssa.Value) bool {
+					switch y := v.(type) {
+					case *ssa.Phi:
+						for _, e := range y.Edges {
+							if bo, isB := e.(*ssa.BinOp); isB && (bo.Op == token.ADD || bo.Op == token.SUB) && (bo.X == ssa.Value(y) || bo.Y == ssa.Value(y)) {
+								counter = true
+							}
+						}
+					case *ssa.Parameter, *ssa.FreeVar:
+						if _, isInt := y.Type().Underlying().(*types.Basic); isInt {
+							external = true
+						}
+					case *ssa.Call:
+						switch CalleeName(y.Common()) {
+						case "strconv.Atoi", "strconv.ParseInt":
+							external = true
+						}
+					case *ssa.UnOp:
+						if _, _, isF := FieldLoad(y); isF {
+							if b, isB := y.Type().Underlying().(*types.Basic); isB && b.Info()&types.IsInteger != 0 {
+								external = true
+							}
+						}
+					}
+					return true
+				})
+				if counter || !external {
+					return
+				}
+				n++
+				win, err := (&interp{p: p, globals: map[string]iv{}}).evalValue(idx, 0)
+				if err != nil || win.kind != 'i' || win.ilo.Sign() < 0 {
+					bad = fmt.Sprintf("index %s (range %s) at %s in %s", PathOf(idx), win, p.Pos(i.Pos()), FuncName(fn))
+				}
+			})
+		}
+	}
+	c.Check(rule, "index:external-values-have-a-lower-bound", p, 0, bad == "", fmt.Sprintf("%d slice/array accesses indexed by a value from outside the function: each has a non-negative lower bound", n), "a slice or array is indexed with a value that can be negative — "+bad+": an input that was only clamped from above (a negative version number, say) panics with index out of range in a request goroutine nothing recovers, which terminates the agent")
+}
+
+// ruleResponseDerefOnErrorPath: a *http.Response that a call returned together with an error is
+// not dereferenced on the branch where that error is non-nil, unless it was tested for nil. The
+// standard client returns a nil response with every error, gorilla's Dial returns one only for a
+// failed handshake (not for refused connections, DNS or TLS failures): `resp.Body.Close()` in
+// the error branch is a nil dereference in a goroutine that nothing recovers.
+func ruleResponseDerefOnErrorPath(c *Ctx, p *Prog, rule string, pkgs ...string) {
+	n := 0
+	bad := ""
+	for _, pk := range pkgs {
+		for _, fn := range p.AllFuncsIn(pk) {
+			EachInstrRaw(fn, func(i ssa.Instruction) {
+				call, ok := i.(*ssa.Call)
+				if !ok {
+					return
+				}
+				res := call.Call.Signature().Results()
+				if res.Len() < 2 || NamedType(res.At(res.Len()-1).Type()) != "error" {
+					return
+				}
+				ri := -1
+				for k := 0; k < res.Len()-1; k++ {
+					if NamedType(res.At(k).Type()) == "net/http.Response" {
+						ri = k
+					}
+				}
+				if ri < 0 {
+					return
+				}
+				var respV, errV ssa.Value
+				for _, r := range Refs(call) {
+					if ex, isE := r.(*ssa.Extract); isE {
+						if ex.Index == ri {
+							respV = ex
+						}
+						if ex.Index == res.Len()-1 {
+							errV = ex
+						}
+					}
+				}
+				if respV == nil || errV == nil {
+					return
+				}
+				n++
+				for _, u := range Refs(respV) {
+					fa, isFA := u.(*ssa.FieldAddr)
+					if !isFA || fa.X != respV {
+						continue
+					}
+					onErr, nilChecked := false, false
+					for _, g := range GuardConds(fa) {
+						bo, isB := g.Cond.(*ssa.BinOp)
+						if !isB {
+							continue
+						}
+						nonNil := (bo.Op == token.NEQ && g.Truth) || (bo.Op == token.EQL && !g.Truth)
+						if (bo.X == errV && IsNilConst(bo.Y)) || (bo.Y == errV && IsNilConst(bo.X)) {
+							if nonNil {
+								onErr = true
+							}
+						}
+						if (bo.X == respV && IsNilConst(bo.Y)) || (bo.Y == respV && IsNilConst(bo.X)) {
+							if nonNil {
+								nilChecked = true
+							}
+						}
+					}
+					if onErr && !nilChecked {
+						bad = "the response of " + CalleeName(call.Common()) + " is dereferenced at " + p.Pos(fa.Pos()) + " in " + FuncName(fn)
+					}
+				}
+			})
+		}
+	}
+	c.Check(rule, "response:not-dereferenced-where-its-error-is-set", p, 0, bad == "", fmt.Sprintf("%d calls returning (*http.Response, error) inspected: the response is not touched on the error branch without a nil test", n), bad+" on the branch where the call's error is non-nil, without a nil test: for every failure but a refused handshake the response is nil, and the panic in an unrecovered request goroutine terminates the agent (the caller gets no answer)")
+}
+
+// ruleSentinelComparedRaw: an error compared with a sentinel of another package by == / !=
+// (datastore.ErrNoSuchEntity, memcache.ErrCacheMiss, io.EOF) is the error that package returned,
+// not a decorated copy: once a helper wraps it with %w (or builds a new error) the comparison is
+// never true and the "not found" case silently takes the generic error path — a different answer
+// for unknown records than for forbidden ones.
+func ruleSentinelComparedRaw(c *Ctx, p *Prog, rule string, pkgs ...string) {
+	n := 0
+	bad := ""
+	for _, pk := range pkgs {
+		for _, fn := range p.AllFuncsIn(pk) {
+			EachInstrRaw(fn, func(i ssa.Instruction) {
+				bo, ok := i.(*ssa.BinOp)
+				if !ok || (bo.Op != token.EQL && bo.Op != token.NEQ) {
+					return
+				}
+				for _, pair := range [][2]ssa.Value{{bo.X, bo.Y}, {bo.Y, bo.X}} {
+					ld, isLd := pair[1].(*ssa.UnOp)
+					if !isLd || ld.Op != token.MUL {
+						continue
+					}
+					g, isG := ld.X.(*ssa.Global)
+					if !isG || NamedType(g.Type()) != "error" && NamedType(derefT(g.Type())) != "error" {
+						continue
+					}
+					if g.Pkg == nil || strings.HasPrefix(g.Pkg.Pkg.Path(), ModPath) {
+						continue
+					}
+					n++
+					for _, root := range Roots(pair[0]) {
+						var call *ssa.Call
+						switch r := root.(type) {
+						case *ssa.Extract:
+							call, _ = r.Tuple.(*ssa.Call)
+						case *ssa.Call:
+							call = r
+						}
+						if call == nil {
+							continue
+						}
+						callee := StaticFunc(call.Common())
+						name := CalleeName(call.Common())
+						if name == "fmt.Errorf" || name == "errors.New" || (callee != nil && p.IsModFunc(callee)) {
+							bad = fmt.Sprintf("%s %s %s.%s at %s, but the error comes from %s", PathOf(pair[0]), bo.Op, g.Pkg.Pkg.Name(), g.Name(), p.Pos(bo.Pos()), name)
+						}
+					}
+				}
+			})
+		}
+	}
+	c.Check(rule, "errors:sentinels-compared-on-the-raw-error", p, 0, bad == "", fmt.Sprintf("%d comparisons with sentinel errors of other packages: each on the error that package returned", n), bad+": a wrapped error never equals the sentinel, so the 'no such record' case takes the generic error path — unknown IDs are answered differently from forbidden ones (an enumeration oracle), or a miss is treated as a failure")
+}
+
+// ruleOneWriterPerCapturedResult: of the goroutines a function starts, at most one assigns any
+// given captured variable. Two goroutines that both write the one `err` the function returns
+// race, and whichever finishes last decides the result — a failed store reported as success, or
+// a best-effort bookkeeping failure reported as the store's.
+func ruleOneWriterPerCapturedResult(c *Ctx, p *Prog, rule string, pkgs ...string) {
+	n := 0
+	bad := ""
+	for _, pk := range pkgs {
+		for _, fn := range p.AllFuncsIn(pk) {
+			// goroutine literals started in fn
+			var gos []*ssa.MakeClosure
+			EachInstrRaw(fn, func(i ssa.Instruction) {
+				if g, ok := i.(*ssa.Go); ok {
+					if mc, isMC := g.Call.Value.(*ssa.MakeClosure); isMC {
+						gos = append(gos, mc)
+					}
+				}
+			})
+			if len(gos) < 2 {
+				continue
+			}
+			n++
+			writers := map[*ssa.Alloc][]string{}
+			for _, mc := range gos {
+				cl := mc.Fn.(*ssa.Function)
+				for bi, b := range mc.Bindings {
+					al, isAl := b.(*ssa.Alloc)
+					if !isAl || bi >= len(cl.FreeVars) {
+						continue
+					}
+					fv := cl.FreeVars[bi]
+					wrote := false
+					for _, h := range WithClosures(cl) {
+						EachInstrRaw(h, func(j ssa.Instruction) {
+							if st, isSt := j.(*ssa.Store); isSt && resolveCell(st.Addr) == al {
+								wrote = true
+							}
+						})
+					}
+					_ = fv
+					if wrote {
+						writers[al] = append(writers[al], p.Pos(mc.Pos()))
+					}
+				}
+			}
+			for al, ws := range writers {
+				if len(ws) > 1 {
+					bad = fmt.Sprintf("variable %s of %s is assigned by %d goroutines (%s)", al.Comment, FuncName(fn), len(ws), strings.Join(ws, ", "))
+				}
+			}
+		}
+	}
+	c.Check(rule, "goroutines:one-writer-per-captured-variable", p, 0, bad == "", fmt.Sprintf("%d functions that start several goroutines inspected: no captured variable is assigned by more than one of them", n), bad+": the goroutines race on it and the last writer decides what the function returns — a failed write of the response can be reported as success (the agent is told 200, the client waits for its 504), or a bookkeeping failure fails a response that was stored")
+}
+
+// ruleWaitWindowNotInherited: the wait loops of the App Engine proxy (30 s for a response, the
+// long poll for pending requests) build their own deadline on top of the context they are
+// given; a deadline can only be shortened by a child context, so the context handed to them must
+// not already carry one made by the caller (a 10 s write timeout declared at function scope
+// silently becomes the response window).
+func ruleWaitWindowNotInherited(c *Ctx, p *Prog, rule string) {
+	n := 0
+	bad := ""
+	for _, fn := range p.AllFuncsIn("app") {
+		EachInstrRaw(fn, func(i ssa.Instruction) {
+			cc := CallOf(i)
+			if cc == nil {
+				return
+			}
+			switch CalleeName(cc) {
+			case ModPath + "/app.waitForResponse", ModPath + "/app.waitForNextRequests":
+			default:
+				return
+			}
+			n++
+			var walk func(v ssa.Value, d int)
+			walk = func(v ssa.Value, d int) {
+				if d > 6 {
+					return
+				}
+				for _, r := range Roots(v) {
+					var call *ssa.Call
+					switch x := r.(type) {
+					case *ssa.Extract:
+						call, _ = x.Tuple.(*ssa.Call)
+					case *ssa.Call:
+						call = x
+					}
+					if call == nil {
+						continue
+					}
+					switch CalleeName(call.Common()) {
+					case "context.WithTimeout", "context.WithDeadline":
+						bad = CalleeName(cc)[strings.LastIndex(CalleeName(cc), ".")+1:] + " in " + FuncName(fn) + " is given a context made by " + CalleeName(call.Common()) + " at " + p.Pos(call.Pos())
+					case "context.WithCancel", "context.WithValue", "context.WithoutCancel":
+						walk(call.Call.Args[0], d+1)
+					}
+				}
+			}
+			walk(PArgs(cc)[0], 0)
+		})
+	}
+	c.Check(rule, "wait-loops:window-not-shortened-by-the-caller", p, 0, bad == "" && n >= 2, fmt.Sprintf("%d calls of the wait loops: the context they receive carries no deadline of the caller's making", n), bad+": the loop's own WithTimeout can only shorten that deadline, so the wait ends early — a response posted within the documented window is accepted from the agent while the client has already been answered 504")
+}
+
+// ruleNoOwnCopyLoop: the reader and writer types on the response/upload path define no WriteTo
+// or ReadFrom of their own. io.Copy (which http.Transport uses to send a request body, and
+// io.NopCloser forwards) prefers those methods over Read/Write: merely adding one reroutes every
+// upload off the path whose replay, fencing and single-read behaviour is established — a WriteTo
+// that emits the retained prefix and then continues through Read sends that prefix twice.
+func ruleNoOwnCopyLoop(c *Ctx, p *Prog, rule string, pkgs ...string) {
+	n := 0
+	bad := ""
+	for _, pk := range pkgs {
+		for _, t := range p.NamedTypesIn(pk) {
+			ms := p.MethodsOf(t)
+			rw := false
+			for _, m := range ms {
+				if m.Name() == "Read" || m.Name() == "Write" {
+					rw = true
+				}
+			}
+			if !rw {
+				continue
+			}
+			n++
+			for _, m := range ms {
+				if (m.Name() == "WriteTo" || m.Name() == "ReadFrom") && m.Synthetic == "" {
+					bad = NamedTypeRel(t) + " declares " + m.Name() + " at " + p.Pos(m.Pos())
+				}
+			}
+		}
+	}
+	c.Check(rule, "copy:no-own-copy-loop:"+strings.Join(pkgs, ","), p, 0, bad == "" && n >= 1, fmt.Sprintf("%d reader/writer types inspected: none declares WriteTo or ReadFrom", n), bad+": io.Copy and http.Transport hand the whole transfer to that method instead of calling Read/Write, so the replay and single-read discipline established for Read no longer governs what is sent (a retried upload can carry its prefix twice)")
+}
